@@ -151,8 +151,8 @@ def pred_l1(arg, out):
     hid, sd, rkid, l0, rk = arg
     want = spec_l1(hid, sd, rkid, l0, rk)
     if want is None:
-        if isinstance(out, Err) and out.name == "OverflowError":
-            return None
+        if isinstance(out, Err):
+            return None  # any refusal: the class is not part of the property (today OverflowError from int.to_bytes)
         return f"L0 = {l0} has no signed 32-bit encoding but the library returned {repr(out)[:80]}"
     if isinstance(out, Err) or out is None or bytes(out) != want:
         return "L1(31) is not KDF(KDF(root key, label, ctx(L0,-1,-1)), label, ctx(L0,31,-1) || SD) (symbolic KDF)"
